@@ -408,6 +408,7 @@ fn check(id: &str, tier: &str) -> i32
                 p.secs = secs;
                 plans.push(p);
             }
+            if thorough { let mut p = plan(scen::s1_chain_xyz(), 7); p.secs = secs; plans.push(p); }
             run_hist_plans(&mut rep, id, plans);
         },
         "C02" =>
@@ -420,6 +421,7 @@ fn check(id: &str, tier: &str) -> i32
                 p.secs = secs;
                 plans.push(p);
             }
+            if thorough { let mut p = plan(scen::s1_chain_xyz(), 7); p.secs = secs; plans.push(p); }
             run_hist_plans(&mut rep, id, plans);
         },
         "C07" | "C08" =>
@@ -432,6 +434,7 @@ fn check(id: &str, tier: &str) -> i32
                 p.secs = secs;
                 plans.push(p);
             }
+            if thorough { let mut p = plan(scen::s1_chain_xyz(), 7); p.secs = secs; plans.push(p); }
             run_hist_plans(&mut rep, id, plans);
             // all explored schedules (end states of C03-C06) and all crash points of C11
             let cases: Vec<SchedCase> = schedeng::success_cases(tier).into_iter().filter(|c| !c.name.starts_with("chain3")).collect();
